@@ -259,6 +259,46 @@ def gen_cases(ctx, count, n_range, k_range, weakly_modes, want=("ok",), q_per=6,
     return cases
 
 
+def canonical_formulas(n=2):
+    """one small formula per truth table over n atoms (16 for n = 2), incl. the constants"""
+    import itertools
+
+    W = core.all_worlds(n)
+    atoms = [("a", i) for i in range(n)]
+    lits = atoms + [("!", a) for a in atoms]
+    cands = [("T",), ("F",)] + lits
+    cands += [(op, x, y) for op in "&|" for x in lits for y in lits if x != y]
+    cands += [("|", ("&", x, y), ("&", ("!", x), ("!", y))) for x in atoms for y in atoms if x != y]
+    cands += [("|", ("&", x, ("!", y)), ("&", ("!", x), y)) for x in atoms for y in atoms if x != y]
+    seen = {}
+    for f in cands:
+        tt = tuple(core.f_eval(f, w) for w in W)
+        if tt not in seen:
+            seen[tt] = f
+    return list(seen.values())
+
+
+def exhaustive_cases(ctx, weakly_modes, pool_size=36, want=("ok",)):
+    """all one-conditional bases over the canonical formulas on 2 atoms x all queries, and all two-conditional bases
+    over a pool of `pool_size` conditionals x all queries (queries in chunks of 64 per case)"""
+    fs = canonical_formulas(2)
+    conds = [(b, a) for b in fs for a in fs]
+    pool = ctx.rng.sample(conds, pool_size)
+    cases = []
+    bases = [[c] for c in conds] + [[x, y] for i, x in enumerate(pool) for y in pool[i:]]
+    for weakly in weakly_modes:
+        for base in bases:
+            probe = mk_case(2, 2, list(enumerate(base, 1)), [], weakly)
+            info = classify(probe)
+            if info["status"] not in want:
+                continue
+            for off in range(0, len(conds), 64):
+                c = mk_case(2, 2, list(enumerate(base, 1)), list(enumerate(conds[off:off + 64], 1)), weakly)
+                c["_info"] = info
+                cases.append(c)
+    return cases
+
+
 def run_cases(ctx, cases, configs, nontrivial):
     """evaluate, compare, shrink; `nontrivial(case, info, qkinds, rows)` -> bool"""
     clean = [{k: v for k, v in c.items() if not k.startswith("_")} for c in cases]
